@@ -2,7 +2,7 @@
    ever delivered.  This file only states the theorems and closes them with the
    lemmas of C03_proofs.v; see DESIGN.md section 5 (C03). *)
 From TV.Lib Require Import Base.
-From TV.Link Require Import Gen Model Facts Topo_proofs Topo_run C03_proofs C03_topo C08_proofs C14_proofs C03_flow.
+From TV.Link Require Import Gen Model Facts Topo_proofs Topo_run C03_proofs C03_topo Topo_fresh C08_proofs C14_proofs C03_flow.
 Open Scope N_scope.
 
 (* A message sent while its direction is explicitly partitioned is in no
@@ -114,6 +114,13 @@ Theorem c03_topology_only_sent : forall t es x,
   fresh_topo t -> Forall no_reg es -> In x (touts t es) -> In x (tsend_ids es).
 Proof. exact touts_only_sent_lemma. Qed.
 
+(* Registering pairwise different hosts at time 0 -- what the harness and every
+   turmoil test do before the first step -- gives such a fresh topology, so the
+   two theorems above hold for every history that starts with registrations. *)
+Theorem c03_fresh_after_registration : forall g hs,
+  NoDup hs -> fresh_topo (reg_all g hs) /\ tg (reg_all g hs) = g.
+Proof. intros g hs H. split; [apply fresh_after_registration_lemma; exact H|apply reg_all_no_reg_tg]. Qed.
+
 (* Structural tie to the source (Gen.v is re-read from top.rs on every run): the
    Rust enums `State` and `DeliveryStatus` have exactly the variants the model's
    inductives `lstate` and `status` have, in the same order.  A new or renamed
@@ -184,6 +191,7 @@ Print Assumptions c03_topology_refines_link.
 Print Assumptions c03_topology_projects.
 Print Assumptions c03_topology_never_delivered.
 Print Assumptions c03_topology_only_sent.
+Print Assumptions c03_fresh_after_registration.
 Print Assumptions c03_topology_nonvacuous.
 Print Assumptions c03_flows_again.
 Print Assumptions c03_model_matches_enums.
